@@ -178,7 +178,14 @@ fn gen(rng: &mut Rng, tier: u32) -> String {
             ms.push(Member { name: rng.pick(&["dir/", "dir/sub/", "empty/", "../up/"]).to_string(), dir: true, data: vec![] });
         } else {
             let name = rng.pick(&NAMES[..]).to_string();
-            let len = *rng.pick(&[0usize, 1, 5, 40, 300]);
+            // mostly small members; sometimes sizes that put the following members, the central directory and the end
+            // record near or across the 2 KiB / 4 KiB / 8 KiB marks (the zip reader looks for the end record in such steps)
+            let len = match rng.below(12) {
+                0..=7 => *rng.pick(&[0usize, 1, 5, 40, 300]),
+                8..=9 => 1500 + rng.below(900) as usize,
+                10 => 3500 + rng.below(900) as usize,
+                _ => rng.below(9000) as usize,
+            };
             let k = ms.len() as u8;
             ms.push(Member { name, dir: false, data: (0..len).map(|i| (i as u8).wrapping_mul(7).wrapping_add(k)).collect() });
         }
@@ -250,5 +257,105 @@ impl Area for Zipx {
     }
     fn run(&self, case: &str) -> String {
         run(case)
+    }
+}
+
+/// development aid: the logic of `CloneableSeekableReader` (cached position of the shared reader) replayed over a cursor,
+/// reporting every read at which the cached position equals the requested offset while the real position differs
+struct ProbeInner {
+    c: std::io::Cursor<Vec<u8>>,
+    cached: u64,
+    hits: Vec<(u64, u64, usize)>,
+    reads: usize,
+}
+#[derive(Clone)]
+struct ProbeReader {
+    inner: std::sync::Arc<std::sync::Mutex<ProbeInner>>,
+    pos: u64,
+}
+impl std::io::Read for ProbeReader {
+    fn read(&mut self, buf: &mut [u8]) -> std::io::Result<usize> {
+        use std::io::{Seek, SeekFrom};
+        let mut i = self.inner.lock().unwrap();
+        let real = i.c.position();
+        i.reads += 1;
+        if self.pos == i.cached && real != self.pos {
+            let n = buf.len();
+            i.hits.push((self.pos, real, n));
+        }
+        if self.pos != i.cached {
+            i.c.seek(SeekFrom::Start(self.pos))?;
+        }
+        let n = std::io::Read::read(&mut i.c, buf)?;
+        i.cached += n as u64;
+        self.pos += n as u64;
+        Ok(n)
+    }
+}
+impl std::io::Seek for ProbeReader {
+    fn seek(&mut self, pos: std::io::SeekFrom) -> std::io::Result<u64> {
+        let len = self.inner.lock().unwrap().c.get_ref().len() as u64;
+        self.pos = match pos {
+            std::io::SeekFrom::Start(p) => p,
+            std::io::SeekFrom::End(o) => (len as i64 + o) as u64,
+            std::io::SeekFrom::Current(o) => (self.pos as i64 + o) as u64,
+        };
+        Ok(self.pos)
+    }
+}
+
+pub fn probe(max: usize) {
+    for s in 0..max {
+        let want: Vec<u8> = (0..100u32).map(|i| (i * 7 + 1) as u8).collect();
+        let ms = vec![
+            Member { name: "skip.bin".into(), dir: false, data: (0..s).map(|i| (i * 13 + 5) as u8).collect() },
+            Member { name: "want.dlt".into(), dir: false, data: want.clone() },
+        ];
+        let z = build_zip(&ms);
+        let r = ProbeReader { inner: std::sync::Arc::new(std::sync::Mutex::new(ProbeInner { c: std::io::Cursor::new(z), cached: 0, hits: vec![], reads: 0 })), pos: 0 };
+        let mut got = vec![];
+        let mut err = String::new();
+        match zip::ZipArchive::new(r.clone()) {
+            Ok(mut a) => {
+                for i in 0..a.len() {
+                    match a.by_index(i) {
+                        Ok(mut f) => {
+                            if f.name() == "want.dlt" {
+                                if let Err(e) = std::io::Read::read_to_end(&mut f, &mut got) {
+                                    err = format!("{}", e);
+                                }
+                            }
+                        }
+                        Err(e) => err = format!("by_index: {}", e),
+                    }
+                }
+            }
+            Err(e) => err = format!("open: {}", e),
+        }
+        let i = r.inner.lock().unwrap();
+        if s < 3 || !i.hits.is_empty() || got != want || !err.is_empty() {
+            println!("s={} reads={} cached_end={} hits={:?} ok={} err={}", s, i.reads, i.cached, i.hits, got == want, err);
+        }
+    }
+    println!("probe done");
+}
+
+/// development aid: the real `extract_archives` on [skip.bin (s bytes), want.dlt], requesting only want.dlt
+pub fn probe_real(sizes: &[usize]) {
+    let sb = tempfile::Builder::new().prefix("zipprobe").tempdir_in(std::env::var("VERIF_RUN_DIR").unwrap_or_else(|_| "/verif/build/run".to_string())).unwrap();
+    let log = slog::Logger::root(slog::Discard, slog::o!());
+    for &s in sizes {
+        let want: Vec<u8> = (0..100u32).map(|i| (i * 7 + 1) as u8).collect();
+        let ms = vec![
+            Member { name: "skip.bin".into(), dir: false, data: (0..s).map(|i| (i * 13 + 5) as u8).collect() },
+            Member { name: "want.dlt".into(), dir: false, data: want.clone() },
+        ];
+        let zpath = sb.path().join(format!("a{}.zip", s));
+        std::fs::write(&zpath, build_zip(&ms)).unwrap();
+        let arg = format!("{}!/want.dlt", zpath.to_string_lossy());
+        let mut temp_dirs = vec![];
+        let r = adlt::utils::unzip::extract_archives(arg.clone(), &mut temp_dirs, &Arc::new(AtomicBool::new(false)), &log);
+        let ok = r.len() == 1 && std::fs::read(&r[0]).map_or(false, |d| d == want);
+        println!("s={} ok={} result={:?}", s, ok, r.iter().map(|x| x.rsplit('/').next().unwrap_or("").to_string()).collect::<Vec<_>>());
     }
 }
